@@ -118,6 +118,22 @@ func NewEnv(nAcc int) (*Env, sdk.Context) {
 		e.Accs = append(e.Accs, a)
 		e.ByAddr[string(addr)] = a.Name
 	}
+	// g0: an administrator holding the permissions to change the fee table / fee properties and to register tokens by message
+	{
+		priv := secp256k1.GenPrivKeyFromSecret([]byte("c09-admin-0"))
+		addr := sdk.AccAddress(priv.PubKey().Address())
+		acc := app.AccountKeeper.NewAccountWithAddress(ctx, addr)
+		app.AccountKeeper.SetAccount(ctx, acc)
+		a := &Acc{Name: "g0", Priv: priv, Addr: addr, Num: acc.GetAccountNumber()}
+		e.Accs = append(e.Accs, a)
+		e.ByAddr[string(addr)] = a.Name
+		actor := govtypes.NewDefaultActor(addr)
+		for _, perm := range []govtypes.PermValue{govtypes.PermChangeTxFee, govtypes.PermUpsertTokenInfo} {
+			if err := app.CustomGovKeeper.AddWhitelistPermission(ctx, actor, perm); err != nil {
+				panic(err)
+			}
+		}
+	}
 	return e, ctx
 }
 
@@ -340,7 +356,11 @@ func (e *Env) Apply(ctx sdk.Context, c *Cfg) error {
 		}
 		app.CustomStakingKeeper.AddValidator(ctx, v)
 	}
-	c.NVals = len(app.CustomStakingKeeper.GetValidatorSet(ctx))
+	// GHOST validator count: the distinct validators known to the harness (those present before, all distinct, plus
+	// the distinct ones just added) -- not re-read from the store, which operations under test may corrupt
+	if c.NVals < have {
+		c.NVals = have
+	}
 	return nil
 }
 
@@ -417,6 +437,31 @@ type M struct {
 	EthRem int64
 	Nonce  uint64 // for eth: nonce of the raw transaction (= signed sequence)
 	Forged bool   // for eth: the raw transaction is signed by a key that is not the sender's
+	W      *Write // for other: the configuration this message writes when its handler succeeds
+}
+
+// Write: configuration written by gov MsgSetExecutionFee / MsgSetNetworkProperties / tokens MsgUpsertTokenInfo.
+type Write struct {
+	Kind    string // exec | fees | token
+	Ty      string
+	E, F    uint64
+	Min     uint64
+	Max     uint64
+	Foreign bool
+	Denom   string
+	Rate    sdk.Dec
+	Enabled bool
+}
+
+func (w Write) Coq() string {
+	switch w.Kind {
+	case "exec":
+		return fmt.Sprintf("WExec %s %d %d", hx.Str(w.Ty), w.E, w.F)
+	case "fees":
+		return fmt.Sprintf("WFees %d %d %s", w.Min, w.Max, hx.B(w.Foreign))
+	default:
+		return fmt.Sprintf("WToken %s %s %s", hx.Str(w.Denom), hx.ZBig(w.Rate.BigInt()), hx.B(w.Enabled))
+	}
 }
 
 func (m M) Type() string {
@@ -472,10 +517,20 @@ func (e *Env) Build(m M) sdk.Msg {
 			return govtypes.NewMsgRegisterIdentityRecords(from, []govtypes.IdentityInfoEntry{{Key: m.Mark, Info: "v"}})
 		case "set_network_properties":
 			p := e.App.CustomGovKeeper.GetNetworkProperties(hx.Ctx(e.App, 1, 1700000000))
+			if m.W != nil {
+				p.MinTxFee, p.MaxTxFee, p.EnableForeignFeePayments = m.W.Min, m.W.Max, m.W.Foreign
+			}
 			return govtypes.NewMsgSetNetworkProperties(from, p)
 		case "set_execution_fee":
+			if m.W != nil {
+				return govtypes.NewMsgSetExecutionFee(m.W.Ty, m.W.E, m.W.F, 0, 0, from)
+			}
 			return govtypes.NewMsgSetExecutionFee("send", 7, 3, 0, 0, from)
 		case "upsert_token_info":
+			if m.W != nil {
+				return tokenstypes.NewMsgUpsertTokenInfo(from, m.W.Denom, "adr20", m.W.Rate, m.W.Enabled, sdk.ZeroInt(), sdk.ZeroInt(), sdk.NewDecWithPrec(10, 2), sdk.OneInt(), false, false,
+					strings.ToUpper(m.W.Denom), m.W.Denom, "", 6, "", "", "", 0, sdk.ZeroInt(), "", false, "", "")
+			}
 			return tokenstypes.NewMsgUpsertTokenInfo(from, "ubar", "adr20", sdk.NewDec(2), true, sdk.ZeroInt(), sdk.ZeroInt(), sdk.NewDecWithPrec(10, 2), sdk.OneInt(), false, false,
 				"BAR", "bar", "", 6, "", "", "", 0, sdk.ZeroInt(), "", false, "", "")
 		}
@@ -526,6 +581,9 @@ func (m M) JSON() map[string]interface{} {
 	default:
 		j["handler_fails_by_construction"] = m.Fails
 		j["key"] = m.Mark
+		if m.W != nil {
+			j["writes_configuration"] = m.W.Coq()
+		}
 	}
 	return j
 }
